@@ -265,3 +265,30 @@ def random_runs(ctx, pool, cov, runs, judge_graphs=False):
             agg["traces_accepted_by_tlc"] += 1
             cov["traces_validated_against_impl"] += 1
     return agg
+
+
+def design_only(ctx, name, over, cov, timeout=900):
+    """A large bounded configuration explored by TLC alone (no scenario emission, nothing replayed): checks the
+    invariants of the page-level design against the abstract promise far beyond what can be replayed. A violation
+    here is a statement about the model, so it is never a verdict: it is reported as Undecided (it must first be
+    reproduced on the code by a replayable configuration)."""
+    text, consts = cfg_text(dict(over, EmitOn="FALSE"))
+    res = vlib.run_tlc(ctx, "StoreMC", "StoreMC_design.cfg", cfg_text=text, tag="design-" + name, timeout=timeout)
+    st = dict(name=name, design_only=True, constants={k: consts[k] for k in consts if k not in ("EmitOn", "EmitSel")},
+              distinct=res.distinct, generated=res.generated, depth=res.depth, tlc_s=round(res.wall, 1), status=res.status)
+    if res.status == "timeout":
+        # bounded by time, not by the state space: report what was covered
+        for line in reversed(res.out):
+            import re
+            m = re.search(r"([\d,]+) states generated.*?([\d,]+) distinct states found", line)
+            if m:
+                st["generated"], st["distinct"] = int(m.group(1).replace(",", "")), int(m.group(2).replace(",", ""))
+                break
+        st["status"] = "time-bounded"
+    elif res.status != "ok":
+        raise vlib.Undecided("StoreMC[design %s]: TLC status=%s (a design-level counterexample is not a verdict about the code)\n%s"
+                             % (name, res.status, "\n".join(res.out[-60:])))
+    cov.setdefault("design_only_configs", []).append(st)
+    cov["states"] += st["distinct"]
+    cov["transitions"] += st["generated"]
+    return st
